@@ -47,7 +47,7 @@ func listingForNumbers(r *rand.Rand, nums []int, i386 bool, table map[int]string
 	return text
 }
 
-var reCodeName = regexp.MustCompile(`(?m)^\s*"([^"]*)",\s*$`)
+var reCodeName = regexp.MustCompile(`(?m)^\s*"([^"]*)",\s*(//.*)?$`)
 
 func c18() {
 	run := vlib.NewRun("C18", "exploration")
@@ -241,7 +241,7 @@ func c18() {
 		for _, v := range join(al) {
 			argv = append(argv, "-allow", v)
 		}
-		debug := format == "config" && r.Intn(3) == 0
+		debug := r.Intn(3) == 0 // -d: more text for a reader, the same profile (in either format)
 		if debug {
 			argv = append(argv, "-d")
 		}
